@@ -10,11 +10,11 @@ TECHNIQUE = "runtime monitoring on a virtual-time simulated network: scripted ra
 LEVEL_TEXT = "All permutations of notification sequences up to length 5 over boundary Observe values and arrival gaps (exhaustive per value set) and sampled longer ones are delivered to the real client through both consumer interfaces and both request paths; the delivered sequence, the terminal signal and the reactions after the end are judged against the reference predicate."
 LEVEL_NOTE = "Trusted: the freshness predicate and the judge in checks/c07.py, harness/vloop.py (time.time is virtual), simnet, refcodec. Exact delivery of every fresh notification is not demanded (the iterator is lossy by design); only subsequence + freshness + 'nothing fresher left undelivered'."
 RULE = (
-    "one case = one observation: (request path raw/default, consumer callback/iteration, first response with/without Observe, sequence of (Observe value, gap, CON/NON), terminator kind and position, trailing notifications). "
+    "one case = one observation: (request path raw/default, consumer callback/iteration, first response with/without Observe, sequence of (Observe value, gap, CON/NON), terminator kind, type (CON/NON) and position, trailing notifications, whether the callback consumer cancels the observation when it is handed the final response). "
     "Non-trivial = at least one notification was stale/duplicated/reordered or a terminator occurred; distinct = distinct tuples of (path, consumer, value-order pattern, gap classes, terminator, position)"
 )
 ASSUMPTIONS = ["one-way latency 1 ms; datagrams with gap 0 are delivered back-to-back in one event-loop iteration", "OBSERVATION_RESET_TIME is 128 s (default tuning)"]
-REQUIRED_MONITORS = {"failure_before_first_response": 4, "late_consumer": 100, "freshness_order": 800, "nothing_fresher_left": 300, "terminal_signal": 800, "after_end_wire": 200, "time_clause_exercised": 20, "clock_consulted": 1}
+REQUIRED_MONITORS = {"failure_before_first_response": 4, "late_consumer": 100, "freshness_order": 800, "nothing_fresher_left": 300, "terminal_signal": 800, "after_end_wire": 200, "time_clause_exercised": 20, "clock_consulted": 1, "con_notification_acknowledged": 300, "cancelled_in_callback": 20}
 EXHAUSTIVE = {"permutations": "all orders of each base value set (length <= 5) for every consumer/path"}
 
 VALUE_SETS = [
@@ -84,6 +84,11 @@ def special_scripts():
             out.append({"path": path, "consumer": consumer, "first": 0, "no_first": True, "notifs": [], "term": "none", "term_pos": 0, "term_gap": 0.0, "trail": 0, "class": "no-first"})
             for ef in ("2.05", "4.04"):
                 out.append({"path": path, "consumer": consumer, "first": 0, "early_final": ef, "notifs": [], "term": "final-" + ef, "term_pos": 0, "term_gap": 0.0, "trail": 2, "class": "early-final"})
+        # the application cancels the observation from inside the callback that hands it the final response
+        for ef in ("2.05", "4.04"):
+            for tt in ("CON", "NON"):
+                for pos in (0, 1, 2):
+                    out.append({"path": path, "consumer": "cb", "first": 0, "notifs": [{"v": 1 + k, "gap": 1.0, "type": "CON" if k else "NON"} for k in range(2)], "term": "final-" + ef, "term_type": tt, "cb_cancels": True, "late": None, "term_pos": pos, "term_gap": 1.0, "trail": 2, "class": "cb-cancels"})
     return out
 
 
@@ -100,6 +105,8 @@ def random_script(r):
         "first": r.choice([0, 0, 0, 7, None]),
         "notifs": [{"v": v, "gap": r.choice(GAPS), "type": r.choice(["NON", "CON"])} for v in vals],
         "term": r.choice(["none", "final-2.05", "final-4.04", "icmp"]),
+        "term_type": r.choice(["NON", "CON"]),
+        "cb_cancels": r.random() < 0.3,
         "term_pos": r.randrange(0, n + 1),
         "term_gap": r.choice(GAPS[:4]),
         "trail": r.choice([0, 2]),
@@ -114,6 +121,10 @@ def run_script(sc, seed, rep, case):
     from aiocoap import error
 
     box = {}
+    if sc.get("cb_cancels") and (sc["consumer"] != "cb" or not sc["term"].startswith("final")):
+        sc["cb_cancels"] = False
+    if sc.get("cb_cancels"):
+        sc["late"] = None  # (a second consumer on an observation the first one cancels: not this check's subject)
     if "late" not in sc:
         # a second consumer that attaches later: right after the first response was awaited (the usual pattern with
         # `await rq.response` followed by `async for`), somewhere during the script, or after everything happened
@@ -148,7 +159,7 @@ def run_script(sc, seed, rep, case):
             if sc.get("early_final") and sc["first"] is not None:
                 # the terminating response follows the first response back to back
                 code = rc.c(2, 5) if sc["early_final"] == "2.05" else rc.c(4, 4)
-                send_notif(peer, "final", None, "NON", code, "final")
+                send_notif(peer, "final", None, sc.get("term_type", "NON"), code, "final")
                 state["t_total"] = 1.0
                 return
             # schedule the script
@@ -163,7 +174,7 @@ def run_script(sc, seed, rep, case):
                         sends.append({"id": "icmp", "v": None, "kind": "icmp", "t": loop.time() + t})
                     else:
                         code = rc.c(2, 5) if sc["term"] == "final-2.05" else rc.c(4, 4)
-                        loop.call_later(t, send_notif, peer, "final", None, "NON", code, "final")
+                        loop.call_later(t, send_notif, peer, "final", None, sc.get("term_type", "NON"), code, "final")
                 if i < len(items):
                     ident, n = items[i]
                     t += n["gap"]
@@ -179,7 +190,13 @@ def run_script(sc, seed, rep, case):
         delivered = []  # (t, id)
         terminal = []  # (t, repr, type)
         if sc["consumer"] == "cb":
-            rq.observation.register_callback(lambda m: delivered.append((loop.time(), bytes(m.payload).decode(), m.opt.observe)))
+            def on_notification(m):
+                delivered.append((loop.time(), bytes(m.payload).decode(), m.opt.observe))
+                if sc.get("cb_cancels") and m.opt.observe is None and delivered[-1][1] == "final":
+                    # an application that is done with the observation once it has seen the final response
+                    rq.observation.cancel()
+
+            rq.observation.register_callback(on_notification)
             rq.observation.register_errback(lambda e: terminal.append((loop.time(), type(e).__name__, e)))
             consumer_task = None
         elif sc["consumer"] == "iter-poll":
@@ -300,9 +317,9 @@ def judge(sc, box, res, rep, case):
             ident = e.msg.payload.decode()
             o = rc.opt1(e.msg, 6)
             kind = "first" if ident == "first" else "final" if ident == "final" else "trail" if ident.startswith("trail") else "notif"
-            arrivals.append({"id": ident, "v": rc.uint_value(o) if o is not None else None, "kind": kind, "t": e.t})
+            arrivals.append({"id": ident, "v": rc.uint_value(o) if o is not None else None, "kind": kind, "t": e.t, "seq": e.seq})
         elif e.kind == "error" and e.dst == C:
-            arrivals.append({"id": "icmp", "v": None, "kind": "icmp", "t": e.t})
+            arrivals.append({"id": "icmp", "v": None, "kind": "icmp", "t": e.t, "seq": e.seq})
     box["sends"] = arrivals
     # where does the observation end?
     end_idx = None
@@ -406,6 +423,13 @@ def judge(sc, box, res, rep, case):
         if term:
             rep.violation("spurious-terminal-signal/" + key_sfx, "the observation was signalled as ended although nothing ended it", wit(), case)
             return
+    elif sc.get("cb_cancels") and end_kind == "final":
+        # the application cancelled the observation itself while it was handed the final response: it may or may
+        # not be told once more that it is over
+        rep.monitor("cancelled_in_callback")
+        if len(term) > 1:
+            rep.violation("terminal-signals-%d/%s/%s" % (len(term), end_kind, key_sfx), "the observation's end was signalled %d times" % len(term), wit(), case)
+            return
     else:
         if len(term) != 1:
             rep.violation("terminal-signals-%d/%s/%s" % (len(term), end_kind, key_sfx), "the observation's end was signalled %d times instead of exactly once" % len(term), wit(), case)
@@ -472,6 +496,15 @@ def judge(sc, box, res, rep, case):
                 p = allowed.index(ident, p + 1)
             else:
                 rep.violation("late-consumer/stale-or-unknown-delivery", "a consumer that attached later was handed something that is not a freshness-ordered subsequence of the arrivals before the end", lwit(item=ident), case)
+                return
+    # ---- wire: confirmable notifications (the final response included) up to the end are acknowledged ----
+    seq_lim = arrivals[end_idx]["seq"] if end_idx is not None else float("inf")  # (wire-log position: ties at one instant)
+    for e in net.log:
+        if e.kind == "deliver" and e.dst == C and e.msg is not None and e.msg.type == rc.CON and rc.is_response(e.msg.code) and e.msg.token == box["token"] and e.seq <= seq_lim:
+            rep.monitor("con_notification_acknowledged")
+            out = [s_ for s_ in net.log if s_.kind == "send" and s_.cause == e.seq]
+            if not (len(out) == 1 and out[0].msg is not None and out[0].msg.type == rc.ACK and out[0].msg.code == 0 and out[0].msg.mid == e.msg.mid):
+                rep.violation("con-notification-not-acknowledged/%s" % ("final" if not rc.opt(e.msg, 6) else "notification"), "a confirmable response belonging to the live observation was not answered with exactly one empty ACK", wit(event=e.brief(), emitted=[s_.brief() for s_ in out]), case)
                 return
     # ---- wire: notifications after the end are rejected like unknown responses ----
     if end_idx is not None:
